@@ -14,7 +14,7 @@ from ..machines import paragraphs as PF
 from ..models import odfws
 
 PATTERNS = ["a", "ab", "[ab]", "a+", "a|d", "^a", "b$", r"\s+", " ", "zz", "c", "b ", "(a)(b)?", r"(?i)A"]
-REPL = ["", "X", "X Y", "  ", "a\tb\nc", " Z", "Z ", r"<\1>", r"\g<0>\g<0>"]
+REPL = ["", "X", "X Y", "  ", "a\tb\nc", " Z", "Z ", r"<\1>", r"\g<0>\g<0>", "a"]  # "a": equal to what several patterns match
 TEXTNS = odfws.TEXT
 FORMATTED_HOLDERS = {"{%s}p" % TEXTNS, "{%s}h" % TEXTNS, "{%s}span" % TEXTNS}
 
